@@ -54,4 +54,245 @@ def nBurn (nIter : Nat) (count : Option Nat) (frac : Option Float) : Option Nat 
 /-- step size on doubles: python `int ** float` -/
 def stepSizeF (power : Float) (j : Nat) : Float := Float.pow (Float.ofNat j) (-power)
 
+/-! ## Part 2 — the update exactly as written, its unrolled weights
+
+`_maximization_step` (mcmc_saem.py):
+
+    burn_in_step = self.current_iteration - self.algo_parameters["n_burn_in_iter"]
+    burn_in_step **= -self.algo_parameters["burn_in_step_power"]
+    self.sufficient_statistics = {
+        k: v * (1.0 - burn_in_step) + burn_in_step * sufficient_statistics[k]
+        for k, v in self.sufficient_statistics.items()
+    }
+
+`burn_in_step` and `1.0 - burn_in_step` are Python doubles; each is cast to the dtype of the tensor it
+multiplies.  On float32 statistics `float32(1.0 - e)` and `1 - float32(e)` differ (by one ulp for about 1 % of
+the steps), so the complement is a separate parameter `c` of the executable model: over a field `c = 1 - e`
+(`Props/C05.lean: stepStatsW_eq`), on doubles `complF`, on float32 tensors `complF32`. -/
+
+/-- `stepStats` with both weights as the code computes them: `prev * c + e * s`. -/
+def stepStatsW {α} [Add α] [Mul α] (e c : Nat → α) (nb k : Nat) (prev s : α) : α :=
+  if memoryless k nb then s else prev * c (k - nb) + e (k - nb) * s
+
+/-- `1.0 - burn_in_step` on doubles. -/
+def complF (power : Float) (j : Nat) : Float := 1.0 - stepSizeF power j
+
+/-- the step size as it reaches a float32 tensor: the double, cast. -/
+def stepSizeF32 (power : Float) (j : Nat) : Float32 := (stepSizeF power j).toFloat32
+
+/-- the complement as it reaches a float32 tensor: computed on doubles, then cast. -/
+def complF32 (power : Float) (j : Nat) : Float32 := (complF power j).toFloat32
+
+/-- `w · c(j+1-nb) · c(j+2-nb) · … · c(k-nb)`, multiplied from the left in iteration order (this is the order in
+    which the code multiplies a contribution by the successive complements). -/
+def decay {α} [Mul α] (c : Nat → α) (nb : Nat) (w : α) (j k : Nat) : α :=
+  (List.range' (j + 1) (k - j)).foldl (fun acc i => acc * c (i - nb)) w
+
+/-- Weight of the statistics of iteration `j` in the statistics used at iteration `k` (`j, k ≥ 1`):
+    memory-less phase (`k ≤ nb+1`): 1 for `j = k`, else 0;
+    afterwards: 0 for `j ≤ nb` and for `j > k`; the reset iteration `nb+1` enters with weight 1, iteration
+    `j ≥ nb+2` with `e (j-nb)`, both then decayed by the complements of the later iterations. -/
+def weight {α} [Mul α] [OfNat α 0] [OfNat α 1] (e c : Nat → α) (nb k j : Nat) : α :=
+  if k ≤ nb + 1 then (if j = k then 1 else 0)
+  else if j ≤ nb ∨ k < j then 0
+  else if j = nb + 1 then decay c nb 1 j k
+  else decay c nb (e (j - nb)) j k
+
+/-- `Σ_i w(j+i) · s_i` over a list of statistics whose first element belongs to iteration `j`. -/
+def weightedSum {α} [Add α] [Mul α] [OfNat α 0] (w : Nat → α) : Nat → List α → α
+  | _, [] => 0
+  | j, s :: ss => w j * s + weightedSum w (j + 1) ss
+
+/-- The unrolled form: `Σ_j weight k j · s_j` over the statistics `s_1, s_2, …` (all of `ss`; the weight of
+    `j > k` is 0). -/
+def unrolled {α} [Add α] [Mul α] [OfNat α 0] [OfNat α 1] (e c : Nat → α) (nb k : Nat) (ss : List α) : α :=
+  weightedSum (weight e c nb k) 1 ss
+
+/-! ## Part 3 — a signed memory-less count, statistics as dictionaries of tensors
+
+Before the repair of F27 nothing forbade `n_burn_in_iter < 0` (negative count or fraction, see Part 4; it can still
+be assigned after construction): `_is_burn_in` is then never true,
+`current_iteration == 1 + n_burn_in_iter` neither (for `k ≥ 1`), and the very first iteration takes the
+convex branch while `self.sufficient_statistics` is still the `None` assigned by `FitAlgorithm.__init__`.
+
+Statistics are a `dict[str, Tensor]`.  A tensor is modelled as the flat list of its entries (1-D); a dict as
+the association list in insertion order (keys pairwise distinct — a Python dict cannot repeat a key). -/
+
+/-- `_is_burn_in` for a signed count. -/
+def isBurnInZ (k : Nat) (nb : Int) : Bool := decide ((k : Int) ≤ nb)
+
+/-- first condition of `_maximization_step` for a signed count. -/
+def memorylessZ (k : Nat) (nb : Int) : Bool := isBurnInZ k nb || decide ((k : Int) = 1 + nb)
+
+/-- `current_iteration - n_burn_in_iter`, the base of the step size (≥ 2 whenever the convex branch is taken
+    at an iteration `k ≥ 1`). -/
+def lagZ (k : Nat) (nb : Int) : Nat := ((k : Int) - nb).toNat
+
+/-- what aborts a run inside `_maximization_step` -/
+inductive RunErr where
+  /-- `None.items()`: convex branch before any statistics were kept -/
+  | attributeError
+  /-- `sufficient_statistics[k]` for a kept key `k` that the new statistics do not have -/
+  | keyError
+  /-- torch: shapes that cannot be broadcast -/
+  | runtimeError
+  deriving DecidableEq, Repr
+
+abbrev Dict (κ α : Type) := List (κ × List α)
+
+/-- `d[k]` / `k in d` -/
+def lookup {κ β : Type} [DecidableEq κ] (k : κ) : List (κ × β) → Option β
+  | [] => none
+  | (k', v) :: r => if k' = k then some v else lookup k r
+
+/-- `x + y` for two 1-D tensors with torch broadcasting: equal lengths entry-wise; a length-1 operand is
+    repeated; anything else is `RuntimeError` (`none`). -/
+def bAdd {α} [Add α] (xs ys : List α) : Option (List α) :=
+  if xs.length = ys.length then some (List.zipWith (· + ·) xs ys)
+  else match xs, ys with
+    | [a], _ => some (ys.map (a + ·))
+    | _, [b] => some (xs.map (· + b))
+    | _, _ => none
+
+/-- `v * (1.0 - burn_in_step) + burn_in_step * s` for one key: two scalar multiplications, one tensor addition. -/
+def convexT {α} [Add α] [Mul α] (ej cj : α) (v s : List α) : Option (List α) :=
+  bAdd (v.map (· * cj)) (s.map (ej * ·))
+
+/-- The dict comprehension: iterates over the KEPT dict (`self.sufficient_statistics.items()`), in its order;
+    the first key that fails decides the exception. -/
+def mstepD {κ α} [DecidableEq κ] [Add α] [Mul α] (ej cj : α) (new : Dict κ α) :
+    Dict κ α → Except RunErr (Dict κ α)
+  | [] => .ok []
+  | (k, v) :: rest =>
+    match lookup k new with
+    | none => .error .keyError
+    | some s =>
+      match convexT ej cj v s with
+      | none => .error .runtimeError
+      | some t =>
+        match mstepD ej cj new rest with
+        | .error err => .error err
+        | .ok r => .ok ((k, t) :: r)
+
+/-- `self.sufficient_statistics` after the first part of `_maximization_step` at iteration `k`;
+    `st` is the attribute before (`none` = Python `None`). -/
+def stepD {κ α} [DecidableEq κ] [Add α] [Mul α] (e c : Nat → α) (nb : Int) (k : Nat)
+    (st : Option (Dict κ α)) (new : Dict κ α) : Except RunErr (Dict κ α) :=
+  if memorylessZ k nb then .ok new
+  else match st with
+    | none => .error .attributeError
+    | some old => mstepD (e (lagZ k nb)) (c (lagZ k nb)) new old
+
+/-- What a run hands to `update_parameters` (statistics, `burn_in` flag) until it ends or aborts. -/
+structure RunOut (κ α : Type) where
+  calls : List (Dict κ α × Bool)
+  err : Option RunErr
+
+def runDFrom {κ α} [DecidableEq κ] [Add α] [Mul α] (e c : Nat → α) (nb : Int) :
+    Nat → Option (Dict κ α) → List (Dict κ α) → RunOut κ α
+  | _, _, [] => ⟨[], none⟩
+  | k, st, s :: ss =>
+    match stepD e c nb k st s with
+    | .error err => ⟨[], some err⟩        -- the exception leaves before `update_parameters`
+    | .ok S =>
+      let out := runDFrom e c nb (k + 1) (some S) ss
+      ⟨(S, isBurnInZ k nb) :: out.calls, out.err⟩
+
+/-- iterations `1 … ss.length`, the attribute starts as `None`. -/
+def runD {κ α} [DecidableEq κ] [Add α] [Mul α] (e c : Nat → α) (nb : Int) (ss : List (Dict κ α)) :
+    RunOut κ α :=
+  runDFrom e c nb 1 none ss
+
+/-- entry `i` of the tensor a dictionary holds for `key` (a read-out used by the statements) -/
+def entry {κ α} [DecidableEq κ] (d : Dict κ α) (key : κ) (i : Nat) : Option α :=
+  (lookup key d).bind (fun v => v[i]?)
+
+/-! ## Part 4 — the constructor
+
+`AlgorithmWithSamplersMixin.__init__` then `TensorMcmcSaemAlgorithm.__init__` (MRO order: the burn-in length is
+derived first, then the step power is tested, then — since the repair of F27 — the sign of the length).  `AlgorithmSettings` validates none of `n_iter`,
+`n_burn_in_iter`, `n_burn_in_iter_frac`, `burn_in_step_power`.
+
+    if self.algo_parameters.get("n_burn_in_iter", None) is None:
+        if n_burn_in_iter_frac is None: raise LeaspyAlgoInputError
+        self.algo_parameters["n_burn_in_iter"] = int(n_burn_in_iter_frac * self.algo_parameters["n_iter"])
+    elif n_burn_in_iter_frac is not None:
+        warnings.warn(…, FutureWarning)          # the count has priority
+    …
+    if not (0.5 < self.algo_parameters["burn_in_step_power"] <= 1): raise LeaspyAlgoInputError
+    if self.algo_parameters["n_burn_in_iter"] < 0: raise LeaspyAlgoInputError          # fix of F27
+
+`int(x)` of a Python float truncates toward zero, raises `ValueError` on nan and `OverflowError` on ±inf. -/
+
+inductive CtorErr where
+  | algoInput        -- LeaspyAlgoInputError
+  | valueError       -- int(nan)
+  | overflowError    -- int(±inf)
+  deriving DecidableEq, Repr
+
+/-- A double, as `int()` sees it. -/
+inductive Dbl where
+  | nan
+  | inf
+  | fin (x : Rat)
+  deriving DecidableEq, Repr
+
+/-- Python `int(x)` on a finite value: truncation toward zero. -/
+def truncZ (x : Rat) : Int := Int.tdiv x.num x.den
+
+def intOfDbl : Dbl → Except CtorErr Int
+  | .nan => .error .valueError
+  | .inf => .error .overflowError
+  | .fin x => .ok (truncZ x)
+
+/-- The memory-less length left in `algo_parameters["n_burn_in_iter"]`; `prod` is the double
+    `n_burn_in_iter_frac * n_iter` (absent when the fraction is `None`). -/
+def nBurnQ (count : Option Int) (prod : Option Dbl) : Except CtorErr Int :=
+  match count, prod with
+  | some c, _ => .ok c
+  | none, none => .error .algoInput
+  | none, some x => intOfDbl x
+
+/-- the `FutureWarning`: a count and a fraction are both given. -/
+def warnsDeprecated {β : Type} (count : Option Int) (frac : Option β) : Bool := count.isSome && frac.isSome
+
+/-- The whole constructor BEFORE the repair of finding F27 (leaspy up to d664c36): burn-in length first, step
+    power last, nothing else — a negative length was accepted.  Kept to state what the repair changed. -/
+def ctorQOld (count : Option Int) (prod : Option Dbl) (powerOk : Bool) : Except CtorErr Int :=
+  match nBurnQ count prod with
+  | .error err => .error err
+  | .ok nb => if powerOk then .ok nb else .error .algoInput
+
+/-- The whole constructor (leaspy 9714692, fix of F27), in MRO order: burn-in length first
+    (`AlgorithmWithSamplersMixin.__init__`), then in `TensorMcmcSaemAlgorithm.__init__` the step power and, last,
+
+        if self.algo_parameters["n_burn_in_iter"] < 0: raise LeaspyAlgoInputError(…)  -/
+def ctorQ (count : Option Int) (prod : Option Dbl) (powerOk : Bool) : Except CtorErr Int :=
+  match nBurnQ count prod with
+  | .error err => .error err
+  | .ok nb =>
+    if !powerOk then .error .algoInput
+    else if nb < 0 then .error .algoInput
+    else .ok nb
+
+/-- exact value of a double, from its bits -/
+def dblOfFloat (x : Float) : Dbl :=
+  let b : Nat := x.toBits.toNat
+  let neg : Bool := b / 2 ^ 63 == 1
+  let ex : Nat := (b / 2 ^ 52) % 2048
+  let m : Nat := b % 2 ^ 52
+  if ex == 2047 then (if m == 0 then .inf else .nan)
+  else
+    let num : Nat := if ex == 0 then m else (2 ^ 52 + m) * 2 ^ (ex - 1075)
+    let den : Nat := if ex == 0 then 2 ^ 1074 else 2 ^ (1075 - ex)
+    let mag : Rat := mkRat (num : Int) den
+    .fin (if neg then -mag else mag)
+
+/-- on doubles: the product is the double product `frac * float(n_iter)`. -/
+def nBurnZ (nIter : Int) (count : Option Int) (frac : Option Float) : Except CtorErr Int :=
+  nBurnQ count (frac.map (fun f => dblOfFloat (f * Float.ofInt nIter)))
+
+def ctorZ (nIter : Int) (count : Option Int) (frac : Option Float) (power : Float) : Except CtorErr Int :=
+  ctorQ count (frac.map (fun f => dblOfFloat (f * Float.ofInt nIter))) (powerOk power)
+
 end LeaspyVerif.Saem
